@@ -97,6 +97,15 @@ Example C10_user_view :
           (tk "level", VInt 3); (tk "target", VStr (tk "prod")); (tk "help", VBool false)]).
 Proof. vm_compute. reflexivity. Qed.
 
+
+(* the end-to-end statement on the same command line: its hypotheses hold and it yields the run *)
+Example C10_end_to_end_hyps :
+  let args := List.map s2l ["-v"; "deploy"; "--target=prod"; "a"; "b"] in
+  parse pf0 Normal false true specs root store0 args = mkRes [] (Ok (st10, [tk "a"; tk "b"])) /\
+  follow root (select_cmds args (labels pf0 Normal false true specs (init root store0) args)) = Some (cur st10) /\
+  ni_name (n_info (cur st10)) = tk "deploy".
+Proof. split; [vm_compute; reflexivity|]. split; vm_compute; reflexivity. Qed.
+
 Example C10_selected_node_hyp :
   exists w st rem, parse pf0 Normal false true specs root store0 (List.map s2l ["x"; "status"; "y"]) = mkRes w (Ok (st, rem)) /\
                    ni_name (n_info (cur st)) = tk "status" /\ rem = [tk "x"; tk "y"].
